@@ -426,3 +426,37 @@ package bbolt
 
 //@ F [batch.runonce] props C16 : callers bbolt.(*batch).run subset bbolt.run$bound, bbolt.(*batch).trigger
 //@ F [batch.trigger] props C16 : callers bbolt.(*batch).trigger subset bbolt.(*DB).Batch, bbolt.trigger$bound
+
+// ---------------------------------------------------------------- C19: integrity check
+
+//@ pure func isfreed(freed map[common.Pgid]bool, id common.Pgid) bool = has(freed, id) && freed[id]
+
+//@ func verifyPageReachable
+//@   props C19 C07
+//@   requires p != nil && reachable != nil && p.id + p.overflow + 1 <= 18446744073709551615
+//@   ensures [marked] forall i common.Pgid :: p.id <= i && i <= p.id + p.overflow ==> has(reachable, i)
+//@   ensures [kept] forall i common.Pgid :: old(has(reachable, i)) ==> has(reachable, i)
+//@   ensures [bounds] p.id > hwm ==> sent(ch) > old(sent(ch))
+//@   ensures [dup] (exists i common.Pgid :: p.id <= i && i <= p.id + p.overflow && old(has(reachable, i))) ==> sent(ch) > old(sent(ch))
+//@   ensures [freed] (exists i common.Pgid :: p.id <= i && i <= p.id + p.overflow && isfreed(freed, i)) ==> sent(ch) > old(sent(ch))
+//@   ensures [type] p.flags != common.BranchPageFlag && p.flags != common.LeafPageFlag ==> sent(ch) > old(sent(ch))
+//@   ensures [clean] p.id <= hwm && (forall i common.Pgid :: p.id <= i && i <= p.id + p.overflow ==> !old(has(reachable, i)) && !isfreed(freed, i)) && (p.flags == common.BranchPageFlag || p.flags == common.LeafPageFlag) ==> sent(ch) == old(sent(ch))
+//@   loop 0 invariant [range] 0 <= i && i <= p.overflow + 1
+//@   loop 0 invariant [marked] forall j common.Pgid :: p.id <= j && j < p.id + i ==> has(reachable, j)
+//@   loop 0 invariant [kept] forall j common.Pgid :: old(has(reachable, j)) ==> has(reachable, j)
+//@   loop 0 invariant [only] forall j common.Pgid :: has(reachable, j) ==> old(has(reachable, j)) || (p.id <= j && j < p.id + i)
+//@   loop 0 invariant [dup] (exists j common.Pgid :: p.id <= j && j < p.id + i && old(has(reachable, j))) ==> sent(ch) > old(sent(ch))
+//@   loop 0 invariant [nodup] (forall j common.Pgid :: p.id <= j && j < p.id + i ==> !old(has(reachable, j))) && p.id <= hwm ==> sent(ch) == old(sent(ch))
+//@   loop 0 invariant [mono] sent(ch) >= old(sent(ch))
+//@   loop 0 invariant [freed] isFreed <==> (exists j common.Pgid :: p.id <= j && j < p.id + i && isfreed(freed, j))
+//@   loop 0 invariant [page] p.id == old(p.id) && p.overflow == old(p.overflow) && p.flags == old(p.flags)
+//@   modifies mapof(reachable)
+
+//@ func verifyKeyOrder
+//@   props C19 C07
+//@   callback ensures true
+//@   ensures [first] index == 0 && old(previousKey != nil && cmp(previousKey, key) > 0) ==> sent(ch) > old(sent(ch))
+//@   ensures [less] index > 0 && old(cmp(previousKey, key)) > 0 ==> sent(ch) > old(sent(ch))
+//@   ensures [equal] index > 0 && old(cmp(previousKey, key)) == 0 ==> sent(ch) > old(sent(ch))
+//@   ensures [max] old(maxKeyOpen != nil && cmp(key, maxKeyOpen) >= 0) ==> sent(ch) > old(sent(ch))
+//@   ensures [clean] !(index == 0 && old(previousKey != nil && cmp(previousKey, key) > 0)) && !(index > 0 && old(cmp(previousKey, key)) >= 0) && !old(maxKeyOpen != nil && cmp(key, maxKeyOpen) >= 0) ==> sent(ch) == old(sent(ch))
